@@ -61,7 +61,7 @@ def run(chk):
     futs = [ex.submit(_model_runs, group_a), ex.submit(_model_runs, group_b)]
     hits = {}
     plan = ([('G02_sim.cfg', 200, 30, 1), ('G02_sim_root.cfg', 100, 30, 1)] if not thorough else
-            [('G02_sim.cfg', 4000, 40, 8), ('G02_sim_root.cfg', 2000, 40, 4)])
+            [('G02_sim.cfg', 1600, 40, 4), ('G02_sim_root.cfg', 800, 40, 2)])
     for cfg, num, depth, batches in plan:
       for k, v in inferred.replay_simulated(chk, cfg, num, depth, chk.seed, batches=batches).items():
         hits[k] = hits.get(k, 0) + v
